@@ -47,18 +47,49 @@ var (
 	CfgWorker8      = ProbeConfig{Name: "worker-limit-8", Exec: "exec:\n  filename: graph/generated.go\n  package: graph\n  worker_limit: 8\n"}
 )
 
+// ForShapes returns the configurations renamed for the shapes probe ("shapes.<name>").
+func ForShapes(cfgs ...ProbeConfig) []ProbeConfig {
+	out := make([]ProbeConfig, len(cfgs))
+	for i, c := range cfgs {
+		c.Name = "shapes." + c.Name
+		out[i] = c
+	}
+	return out
+}
+
+// BuildBoth builds the exec probe in cfgs and the shapes probe in shapeCfgs, concurrently.
+func BuildBoth(cfgs, shapeCfgs []ProbeConfig) []Built {
+	var a, b []Built
+	var wg sync.WaitGroup
+	wg.Add(2)
+	go func() { defer wg.Done(); a = BuildAll("exec", cfgs) }()
+	go func() { defer wg.Done(); b = BuildAll("shapes", ForShapes(shapeCfgs...)) }()
+	wg.Wait()
+	return append(a, b...)
+}
+
 func Opt(name, yaml string) ProbeConfig { return ProbeConfig{Name: name, Extra: yaml} }
 
-func (pc ProbeConfig) yaml() string {
+// probeModels: the models: section of each probe (hand-written / map-backed models).
+var probeModels = map[string]string{
+	"exec":   "models:\n  Boom:\n    model: verif/exech.Boom\n",
+	"shapes": "models:\n  Boom:\n    model: verif/exech.Boom\n  H:\n    model: verif/exech/m2.H\n  MO:\n    model: map[string]interface{}\n",
+}
+
+// probeHarness: the harness main template of each probe (under exech/harness).
+var probeHarness = map[string]string{"exec": "main.go.txt", "shapes": "shapes.go.txt"}
+
+func (pc ProbeConfig) yaml(probeName string) string {
 	ex := pc.Exec
 	if ex == "" {
 		ex = "exec:\n  filename: graph/generated.go\n  package: graph\n"
 	}
-	return "schema:\n  - schema.graphql\n" + ex + "model:\n  filename: graph/models_gen.go\n  package: graph\nmodels:\n  Boom:\n    model: verif/exech.Boom\n" + pc.Extra
+	return "schema:\n  - schema.graphql\n" + ex + "model:\n  filename: graph/models_gen.go\n  package: graph\n" + probeModels[probeName] + pc.Extra
 }
 
 type Built struct {
-	Cfg ProbeConfig
+	Cfg   ProbeConfig
+	Probe string
 	Dir string
 	Bin string
 	Err error
@@ -67,7 +98,7 @@ type Built struct {
 // BuildAll generates + instruments + builds the harness for every configuration, in parallel.
 func BuildAll(probeName string, cfgs []ProbeConfig) []Built {
 	out := make([]Built, len(cfgs))
-	tmpl, err := os.ReadFile(filepath.Join(common.Root, "exech", "harness", "main.go.txt"))
+	tmpl, err := os.ReadFile(filepath.Join(common.Root, "exech", "harness", probeHarness[probeName]))
 	if err != nil {
 		common.Broken("harness template: %v", err)
 	}
@@ -86,7 +117,8 @@ func BuildAll(probeName string, cfgs []ProbeConfig) []Built {
 			sem <- struct{}{}
 			defer func() { <-sem }()
 			files := probe.ReadProbe(probeName)
-			files["gqlgen.yml"] = pc.yaml()
+			files["gqlgen.yml"] = pc.yaml(probeName)
+			files["harness/main.go"] = string(tmpl)
 			if pc.FieldDirective {
 				files["schema.graphql"] = "directive @fq(tag: String) on FIELD\n" + files["schema.graphql"]
 				files["harness/main.go"] = strings.Replace(files["harness/main.go"], "// FIELD-DIRECTIVE-HOOK", "Fq: func(ctx context.Context, obj any, next graphql.Resolver, tag *string) (any, error) { return next(ctx) },", 1)
@@ -97,9 +129,8 @@ func BuildAll(probeName string, cfgs []ProbeConfig) []Built {
 				sdl = strings.Replace(sdl, "type Query {", "type Root {", 1)
 				files["schema.graphql"] = "schema { query: Root mutation: Commands subscription: Subscription }\n" + sdl
 			}
-			files["harness/main.go"] = string(tmpl)
 			res, err := probe.Generate(probe.Spec{Name: probeName + "-" + pc.Name, Files: files, Stub: "graph/stub.go"})
-			b := Built{Cfg: pc, Dir: res.Dir}
+			b := Built{Cfg: pc, Dir: res.Dir, Probe: probeName}
 			if err != nil {
 				b.Err = err
 			} else if res.ExitCode != 0 {
